@@ -33,7 +33,7 @@ var hotXML = []string{
 }
 var hotHTML = []string{
 	"<", ">", "/", "</", "/>", "=", "\"", "'", "&", ";", "&amp;", "&#0;", "<!--", "-->", "<!DOCTYPE html>", " ", "\n", "\x00", "\xc3", "\xf0\x9f",
-	"<html>", "<html lang=\"en\">", "<head>", "</head>", "<body>", "</body>", "</html>", "<base href=\"http://b/\">", "<base href=\":\">", "<div>", "</div>", "<span>", "<p>", "<a href=\"x\">", "<table>", "<tr>", "<td>",
+	"\f", "\v", "&#12;", "\u0085", "<html>", "<html lang=\"en\">", "<head>", "</head>", "<body>", "</body>", "</html>", "<base href=\"http://b/\">", "<base href=\":\">", "<div>", "</div>", "<span>", "<p>", "<a href=\"x\">", "<table>", "<tr>", "<td>",
 	"<template>", "</template>", "<svg>", "</svg>", "<math>", "<frameset>", "<select>", "<title>", "<link rel=\"x\" href=\"y\">", "<meta property=\"p\" content=\"c\">", "<time datetime=\"2001\">", "<img src=\"s\">",
 	" vocab=\"http://v/\"", " vocab=\"\"", " prefix=\"p: http://p/\"", " prefix=\"p:\"", " typeof=\"T\"", " typeof=\"\"", " property=\"p:x\"", " property=\"\"", " rel=\"next\"", " rev=\"r\"", " resource=\"#r\"", " resource=\"[_:b]\"", " resource=\"[]\"",
 	" about=\"\"", " about=\"_:\"", " about=\"[p:x]\"", " href=\"h\"", " src=\"s\"", " content=\"c\"", " datatype=\"\"", " datatype=\"rdf:XMLLiteral\"", " datatype=\"rdf:HTML\"", " datatype=\"xsd:date\"", " inlist", " inlist=\"\"", " lang=\"en\"", " xml:lang=\"fr\"", " xmlns:p=\"http://x/\"",
@@ -355,7 +355,8 @@ var nestGens = map[string][]nestGen{
 			sb.WriteString(`x` + rep(`</div>`, n) + `</body></html>`)
 			return []byte(sb.String())
 		}, nil},
-		{"itemref-fan-itemid", func(n int) []byte {
+		// a variant of itemref-fan ("+…": same class of violation, see hangSub): the items also carry @itemid
+		{"itemref-fan+itemid", func(n int) []byte {
 			var sb strings.Builder
 			sb.WriteString(`<html><body><div itemscope itemid="http://e/root" itemref="`)
 			for i := 0; i < n; i++ {
@@ -555,6 +556,10 @@ func xmlErrorDocs() []Seed {
 		func(a, v string) string { return a + "\n=\n'" + v + "'" },
 		func(a, v string) string { return a + `="&#120;` + v + `"` },
 		func(a, v string) string { return a + `="` + v + `" ` + a + `="` + v + `"` }, // duplicate attribute
+		func(a, v string) string { return a + "\t=\t\"" + v + "\"" },                 // tabs around '='
+		func(a, v string) string { return a + "\r\n=\"" + v + "\"\r\n" },             // CR LF inside the tag
+		func(a, v string) string { return a + `='` + v + `>'` },                      // '>' inside a single-quoted value
+		func(a, v string) string { return a + `="` + v + `&quot;&#x9;"` },            // character references at the end of the value
 	}
 	hosts := []func(at string) string{
 		func(at string) string {
@@ -588,11 +593,21 @@ func xmlErrorDocs() []Seed {
 		func(at string) string {
 			return xmlHead + `<rdf:Description rdf:about="http://e/s"><rdf:li ` + at + `>o</rdf:li></rdf:Description></rdf:RDF>`
 		},
+		// the attribute is not the first one of its tag (attribute metadata is looked up by index)
+		func(at string) string {
+			return xmlHead + `<rdf:Description rdf:about="http://e/s"><e:p e:q='v' xml:lang="en" ` + at + `>o</e:p></rdf:Description></rdf:RDF>`
+		},
+		func(at string) string {
+			return xmlHead + `<rdf:Description e:q="v" ` + at + ` e:r='w'><e:p>o</e:p></rdf:Description></rdf:RDF>`
+		},
 	}
 	var out []Seed
 	for ai, a := range attrs {
 		for vi, v := range values {
 			for si, sp := range spell {
+				if si >= 6 && !(v == "" || v == "1bad" || v == "ok") { // the later spellings: invalid-name values and one valid value only
+					continue
+				}
 				for hi, h := range hosts {
 					if (ai+vi+si+hi)%3 != 0 && !(v == "" || v == "1bad") { // thinned out; the invalid-name values are run everywhere
 						continue
@@ -620,6 +635,57 @@ func xmlErrorDocs() []Seed {
 		`<!-- c -->` + xmlHead + `<?pi x?><rdf:Description><?pi?><e:p>a<?pi?>b<!-- c -->c</e:p></rdf:Description></rdf:RDF><!-- t -->`,
 	} {
 		out = append(out, Seed{Name: fmt.Sprintf("directive:%d", i), B: []byte(d)})
+	}
+	return out
+}
+
+// htmlTokenListDocs: grammar-directed documents for the attributes the RDFa and Microdata decoders
+// split into tokens (@typeof, @property, @rel, @rev, @prefix, @datatype, @itemprop, @itemtype,
+// @itemref, …) x the characters that one of the notions of "white space" in play treats as a separator
+// and another does not (HTML ASCII white space: TAB LF FF CR SPACE; Go regexp \s: the same five;
+// unicode.IsSpace / strings.Fields: also VT, U+0085, U+00A0, U+2028, U+3000; NUL; written raw and as
+// character references) x where it stands (start, middle, end, doubled, alone). A tokenizer whose
+// skip-separators step and next-token step disagree on one of them makes no progress (hang) or
+// slices out of range (panic).
+func htmlTokenListDocs() []Seed {
+	seps := []struct{ name, s string }{
+		{"SP", " "}, {"TAB", "\t"}, {"LF", "\n"}, {"CR", "\r"}, {"FF", "\f"}, {"VT", "\v"}, {"NUL", "\x00"},
+		{"NEL", "\u0085"}, {"NBSP", "\u00a0"}, {"LS", "\u2028"}, {"IDSP", "\u3000"}, {"ZWSP", "\u200b"},
+		{"ref-FF", "&#12;"}, {"ref-VT", "&#11;"}, {"ref-NBSP", "&#160;"}, {"ref-TAB", "&#9;"}, {"CRLF", "\r\n"},
+	}
+	attrs := []struct{ attr, a, b, rest string }{
+		{"typeof", "T", "U", ` about="#s"`},
+		{"typeof", "p:T", "rdfa:Pattern", ``},
+		{"property", "p:x", "q", ` content="c"`},
+		{"rel", "p:x", "next", ` href="http://e/o"`},
+		{"rev", "p:x", "q", ` resource="#o"`},
+		{"prefix", "a: http://a/", "b: http://b/", ` property="a:x b:y"`},
+		{"datatype", "xsd:date", "", ` property="q" content="2001-01-01"`},
+		{"about", "[p:x]", "#y", ` property="q"`},
+		{"vocab", "http://w/", "", ` property="q"`},
+		{"inlist", "", "", ` property="q"`},
+		{"itemprop", "a", "http://x/b", ` itemscope itemtype="http://t/A"`},
+		{"itemtype", "http://t/A", "http://t/B", ` itemscope itemprop="q"`},
+		{"itemref", "i1", "i2", ` itemscope`},
+		{"itemid", "http://e/i", "", ` itemscope itemprop="q"`},
+	}
+	place := []func(a, b, s string) string{
+		func(a, b, s string) string { return a + s + b },
+		func(a, b, s string) string { return s + a + " " + b },
+		func(a, b, s string) string { return a + " " + b + s },
+		func(a, b, s string) string { return a + s + s + b + s },
+		func(a, b, s string) string { return s },
+	}
+	var out []Seed
+	for _, at := range attrs {
+		for _, sp := range seps {
+			for pi, pl := range place {
+				v := pl(at.a, at.b, sp.s)
+				doc := `<!DOCTYPE html><html prefix="p: http://p/ xsd: http://www.w3.org/2001/XMLSchema#"><body vocab="http://v/"><div itemscope><p id="i1" itemprop="r">1</p><p id="i2" itemprop="s">2</p>` +
+					`<div ` + at.attr + `="` + v + `"` + at.rest + `><span property="n" itemprop="n">x</span></div></div></body></html>`
+				out = append(out, Seed{Name: fmt.Sprintf("%s/sep-%s/place%d", at.attr, sp.name, pi), B: []byte(doc)})
+			}
+		}
 	}
 	return out
 }
